@@ -6,6 +6,7 @@ afterwards. Nothing under /verif/replays or /verif/evidence is touched.
 
 usage: sensitivity.py <mutant-id>...        (ids from tools/mutants.py; 'all' for every one)
        sensitivity.py seeded                (every change under /verif/seeded)
+       sensitivity.py controls [id...]      (negative controls under /verif/controls: must stay silent)
        sensitivity.py --patch <file> <PROP> (a unified diff relative to the repository root)
        options: --tier quick|thorough  --keep  --with-suite
 """
@@ -80,6 +81,21 @@ def record(line, m):
     os.replace(RESULTS + ".tmp", RESULTS)
 
 
+def record_control(line):
+    path = os.path.join(VERIF, "controls_results.json")
+    try:
+        with open(path) as f:
+            data = json.load(f)
+    except (OSError, ValueError):
+        data = {}
+    data[line["id"]] = {"prop": line["prop"], "exit": line["exit"], "classes": line["classes"], "wall_s": line["wall_s"],
+                        "silent": line["exit"] == 0}
+    with open(path + ".tmp", "w") as f:
+        json.dump(data, f, indent=1, sort_keys=True)
+        f.write("\n")
+    os.replace(path + ".tmp", path)
+
+
 def main():
     args = sys.argv[1:]
     tier = "quick"
@@ -101,6 +117,17 @@ def main():
                 with open(mp) as f:
                     meta = json.load(f)
                 todo.append({"id": sid, "prop": meta["property"], "patch": os.path.join(VERIF, "seeded", sid, "patch.diff")})
+    elif args and args[0] == "controls":
+        # negative controls under /verif/controls: changes under which the property still holds;
+        # the check must stay silent (exit 0) on every one of them
+        todo = []
+        for sid in sorted(os.listdir(os.path.join(VERIF, "controls"))):
+            mp = os.path.join(VERIF, "controls", sid, "meta.json")
+            if os.path.exists(mp) and (len(args) == 1 or sid in args[1:]):
+                with open(mp) as f:
+                    meta = json.load(f)
+                todo.append({"id": sid, "prop": meta["property"], "control": True,
+                             "patch": os.path.join(VERIF, "controls", sid, "patch.diff")})
     elif args and args[0] == "--patch":
         todo = [{"id": os.path.basename(args[1]), "prop": args[2], "patch": os.path.abspath(args[1])}]
     else:
@@ -121,6 +148,11 @@ def main():
                     "expected": m.get("expect", "")}
             results.append(line)
             print(json.dumps(line), flush=True)
+            if m.get("control"):
+                record_control(line)
+                if rc != 0:
+                    print(out[-3000:])
+                continue
             record(line, m)
             if rc not in (0, 1):
                 print(out[-3000:])
@@ -129,6 +161,10 @@ def main():
                 shutil.rmtree(scratch, ignore_errors=True)
             else:
                 print("kept", scratch)
+    if todo and todo[0].get("control"):
+        silent = sum(1 for r in results if r["exit"] == 0)
+        print("silent on %d of %d negative controls" % (silent, len(results)))
+        return 0 if silent == len(results) else 1
     caught = sum(1 for r in results if r["exit"] == 1)
     print("caught %d of %d" % (caught, len(results)))
     return 0 if caught == len(results) else 1
